@@ -324,6 +324,7 @@ def write_evidence(prop, tier, base, agg, wall, violations, harness_errors, det_
             "probes_fired": agg["hits"],
             "ops_dropped": agg["skipped"],
             "fault_free_runs": agg["fault_free_runs"],
+            "share_of_ops_with_ordinary_result": round(agg["hits"].get("op-outcome:ordinary-result", 0) / max(1, agg["hits"].get("op-outcome:ordinary-result", 0) + agg["hits"].get("op-outcome:raised", 0)), 3),
             "mandatory_triples_covered": agg["triples"],
             "processes_forked": agg["forks"],
             "raw_runs": agg["raw_runs"],
